@@ -28,6 +28,21 @@ CLAIMS["C03"] = proof(
     "try_acquire exact (C03_try_exact), drop returns exactly one, forget none, add_permits(n) exactly n. Hypothesis stated in the theorems: initial + added < 2^64 (the code has no overflow check). "
     "Schedule half not yet proved. " + CORR, NOTE)
 
+CLAIMS["C02"] = proof(
+    "History half proved: C02_excl_hist — in every reachable state of every history over the full RwLock alphabet (five future kinds, borrowed and Arc, try_*, upgrade, try_upgrade, three downgrades, "
+    "cancellation anywhere) at most one write guard, at most one upgradable guard, and a write guard excludes all others; from the invariant state = 2*(R+U) + W + H, mutex word = tickets + U + W + H, U+W+H <= 1. "
+    "Schedule and happens-before halves not yet proved (pinned by Tie_Raw / Tie_Mutex). " + CORR, NOTE)
+CLAIMS["C11"] = proof(
+    "History half proved: C11_single_converter_hist (at most one of upgradable guard / write guard / announced writer / pending upgrade in every reachable state), C11_value_frame (the value changes only "
+    "through a write guard), C11_pending_upgrade_excludes (try_read / try_upgradable_read / try_write fail while a writer or upgrade is pending). Schedule half not yet proved: a split of a conversion into two "
+    "RMWs or a reordering inside one call is caught by the tie lemmas only (no-failing-input-found). " + CORR, NOTE)
+CLAIMS["C13"] = proof(
+    "First clause proved for every history and every oracle stream: C13_closed_hist — while a starved lock operation is alive try_lock/try_lock_arc return None, also while bit 0 is clear. "
+    "The ordering clause (no later operation overtakes the starved one under serialised polls) is not proved; it is decided by the harness monitor on the implementation and the correspondence. " + CORR, NOTE)
+CLAIMS["C15"] = proof(
+    "Proved for every history of the Mutex, Semaphore and RwLock machines: strong count = handles + owned guards + owning futures (C15_*_count); dropped exactly when the count reaches 0, at most once, "
+    "for Mutex and Semaphore (C15_*_dropped_once); an owned guard implies strong >= 1. Drop-once for RwLock not yet proved (monitored). Memory safety of the unsafe Arc plumbing is outside the model. " + CORR, NOTE)
+
 NOT_APPLICABLE = [
     dict(property_id="C16", reason="check under construction (marker tables from the translator + rustc probes); not claimed yet"),
 ]
